@@ -125,6 +125,7 @@ def analyse(R, runner, trace, tag):
                     "late_update_changed_state": "a ribUpdate that ran after the dead sweep had removed its neighbour (on the neighbour object it was started with) changed the real router's RIB: the lost neighbour's destinations are re-installed through a hop that is no longer a neighbour",
                     "stale_data_changed_state": "advertisement Data whose sequence number is not the latest one announced by that neighbour (delayed / reordered Data, or Data of a neighbour that is gone) changed the real router's RIB: an out-of-date advertisement is processed and what it lists is (re-)installed",
                     "live_neighbour_declared_dead": "the real dead sweep removed a neighbour from which a Sync Interest had been received within RouterDeadInterval (a heartbeat with an unchanged sequence number did not refresh its liveness)",
+                    "restart_not_noticed": "a neighbour restarted (fresh NewRouter, same name) inside the dead interval; its Sync Interest and advertisement Data were delivered, yet the real router still stores the old incarnation's routes through it (the new initial sequence number is not larger than the remembered one)",
                     "no_quiescence": "the notification-driven schedule of the real routers did not come to rest",
                     "harness": "the harness saw an ill-formed table/advertisement"}.get(which, which)
             rep = dict(case=p[2], detail=detail[:3000], ops=ops[-6000:], trace_line=ln)
